@@ -314,6 +314,31 @@ pub fn pstring() -> ZooLang {
     }
 }
 
+pub const COLM_SCANNER: &str = include_str!("../../zoo/colm_scanner.c");
+
+/// Tokens whose kind depends on the column they start at (the scanner calls `get_column`): a zero-width `odd`/`even`
+/// token before every `!`, and `@` as `at_low` (column < 4) or `at_high`. Reuse of such tokens after an edit is sound
+/// only if the edit did not move them within their line (`depends_on_column` in the runtime).
+pub fn colm() -> ZooLang {
+    let g = G::new("colm")
+        .external(sym("odd")).external(sym("even")).external(sym("at_low")).external(sym("at_high"))
+        .rule("source", rep(sym("_item")))
+        .rule("_item", choice(vec![sym("mark"), sym("word"), sym("group"), sym("at_low"), sym("at_high")]))
+        .rule("mark", seq(vec![choice(vec![sym("odd"), sym("even")]), s("!")]))
+        .rule("group", seq(vec![s("("), rep(sym("_item")), s(")")]))
+        .rule("word", pat("[a-zé]+"))
+        .extras(vec![pat("\\s")]);
+    ZooLang {
+        name: "colm", spec: spec(g, Some(COLM_SCANNER)),
+        lexemes: vec!["!", "@", "a", "ab", "é", " ", "\n", "(", ")"],
+        seeds: vec![
+            "", "!", " !", "a !", "ab !\n!", "a\n !\n  !", "(a !) !", "a (b\n!) !", "a !\nb !\n", "a ! b ! c !", "@ a @ ab @", "abc\n@ (a @\n @) !",
+            "c =\n do d\n    !\n@\n", "a\n(! b (! @) !) @ !\n", "é ! é @ !", "(a\n ! (b\n  ! @))", "!!", "a) ! (", "(\n\n!\n@)\n\n !",
+        ],
+        skippable: b" \t\r\n", has_scanner: true,
+    }
+}
+
 pub fn tmpl() -> ZooLang {
     let g = G::new("tmpl")
         .rule("template", rep(choice(vec![sym("text"), sym("directive"), sym("output")])))
@@ -378,13 +403,13 @@ pub fn fixture(name: &'static str, lexemes: Vec<&'static str>, seeds: Vec<&'stat
 }
 
 pub fn core_zoo() -> Vec<ZooLang> {
-    vec![arith(), stmts(), jsonish(), glr(), lexla(), indent(), pstring(), lookfar(), resv()]
+    vec![arith(), stmts(), jsonish(), glr(), lexla(), indent(), pstring(), lookfar(), resv(), colm()]
 }
 
 pub fn by_name(name: &str) -> Option<ZooLang> {
     match name {
         "arith" => Some(arith()), "stmts" => Some(stmts()), "jsonish" => Some(jsonish()), "glr" => Some(glr()), "lexla" => Some(lexla()),
-        "indent" => Some(indent()), "pstring" => Some(pstring()), "lookfar" => Some(lookfar()), "groups" => Some(groups()), "resv" => Some(resv()), "tmpl" => Some(tmpl()), "tagl" => Some(tagl()),
+        "indent" => Some(indent()), "pstring" => Some(pstring()), "lookfar" => Some(lookfar()), "groups" => Some(groups()), "resv" => Some(resv()), "tmpl" => Some(tmpl()), "tagl" => Some(tagl()), "colm" => Some(colm()),
         _ => None,
     }
 }
